@@ -372,6 +372,12 @@ func (*bytesFilter).Contains
 
 // ---- PrioritizedSlice (C20) ----
 // the comparison handed to sort.Slice: element i goes before element j iff its Priority is smaller
+// Sort leaves the priorities ascending.  Trusted composition (C20's trusted base): sort.Slice sorts by its `less`, the
+// closure below is PROVED to be '<' on Priority, and the scan sort-by-less shows Sort is exactly sort.Slice(s, closure).
+func PrioritizedSlice.Sort
+  trusted
+  ensures [ascending] forall a int, b int {s[a], s[b]} :: (0 <= a && a < b && b < len(s)) ==> s[a].Priority <= s[b].Priority
+  modifies contents(s)
 func PrioritizedSlice.Sort$1
   requires 0 <= i && i < len(*s) && 0 <= j && j < len(*s)
   ensures result <==> ((*s)[i].Priority < (*s)[j].Priority)
